@@ -123,7 +123,7 @@ func c09Enum() {
 	c09CCalls = EnumCalls(reflect.TypeOf(&stackage.Condition{}), p)
 }
 
-const c09Instances = 12
+const c09Instances = 24
 
 func c09Tier(tier string) (single, seqs int) {
 	c09Once.Do(c09Enum)
@@ -131,7 +131,7 @@ func c09Tier(tier string) (single, seqs int) {
 	if tier == "thorough" {
 		return single * 4, 200000
 	}
-	return single, 4000
+	return single, 40000
 }
 
 type c09Target struct {
@@ -245,7 +245,32 @@ func c09Run(c *core.Ctx, idx int) {
 	c09One(c, r.U64(), isCond, seq)
 }
 
+// c09Fresh re-synthesises the arguments of the given call specs from a fresh pool, so that no argument value
+// (pool Stacks, Conditions, maps) is shared between cases or between the read-only instance and its writable twin.
+func c09Fresh(isCond bool, seq []CallSpec) []CallSpec {
+	t := reflect.TypeOf(&stackage.Stack{})
+	ref := c09SCalls
+	if isCond {
+		t = reflect.TypeOf(&stackage.Condition{})
+		ref = c09CCalls
+	}
+	fresh := EnumCalls(t, c09Pools())
+	byDesc := map[string]int{}
+	for i, cs := range ref {
+		if _, ok := byDesc[cs.Desc]; !ok {
+			byDesc[cs.Desc] = i
+		}
+	}
+	out := make([]CallSpec, len(seq))
+	for i, cs := range seq {
+		out[i] = fresh[byDesc[cs.Desc]]
+	}
+	return out
+}
+
 func c09One(c *core.Ctx, seed uint64, isCond bool, seq []CallSpec) {
+	twinSeq := c09Fresh(isCond, seq)
+	seq = c09Fresh(isCond, seq)
 	t := c09Build(seed, isCond)
 	twin := c09Build(seed, isCond) // stays writable: measures whether the call would change anything
 	var names []string
@@ -263,7 +288,7 @@ func c09One(c *core.Ctx, seed uint64, isCond bool, seq []CallSpec) {
 	opts := DiffOpts{}
 	replaced := false
 	roCleared := false
-	for _, cs := range seq {
+	for si, cs := range seq {
 		o, rep := c09Allowed(cs.Method)
 		opts.IgnoreOpt |= o.IgnoreOpt
 		opts.SkipRoot = append(opts.SkipRoot, o.SkipRoot...)
@@ -297,7 +322,7 @@ func c09One(c *core.Ctx, seed uint64, isCond bool, seq []CallSpec) {
 			c.Violatef("changed:"+kindTag+"."+cs.Method, desc, "%s on a read-only %s changed: %s", cs.Desc, kindTag, d)
 			return
 		}
-		Invoke(twin.recv, cs)
+		Invoke(twin.recv, twinSeq[si])
 	}
 	// does the same sequence change a writable twin? (measured: the guard matters)
 	guardMatters := false
@@ -360,7 +385,7 @@ func init() {
 			c.Notes["condition_methods"] = fmt.Sprint(len(MethodNames(reflect.TypeOf(&stackage.Condition{}))))
 			c.Notes["call_variants"] = fmt.Sprintf("Stack=%d Condition=%d", len(c09SCalls), len(c09CCalls))
 		},
-		Rule: "every exported method of *Stack and *Condition (enumerated by reflection at run time) x argument variants (each parameter varied through its pool; variadics with 0/1/2 values; recording/nil closures) x 12 (quick) / 48 (thorough) random instances " +
+		Rule: "every exported method of *Stack and *Condition (enumerated by reflection at run time) x argument variants (each parameter varied through its pool; variadics with 0/1/2 values; recording/nil closures) x 24 (quick) / 96 (thorough) random instances " +
 			"(nested trees with Conditions/aliases, capacity, FIFO, all option bits, ID, category, delimiter, symbol, encapsulation, six policies, less function, auxiliary map, logger, log levels, mutex), invoked singly on the read-only instance; plus random 2..5-call sequences. " +
 			"Oracle: recursive VerifDump snapshot before/after must be identical except the read-only bit after SetReadOnly/ReadOnly, err after SetErr and the instance after Condition.Init; Free must return an error and leave the handle initialised; " +
 			"after clearing the flag the state equals the initial one and a setter takes effect. non-trivial = the same call(s) DO change a writable twin built from the same seed (measured, so the guard is known to matter); distinct = (receiver kind, call list, instance).",
